@@ -1196,8 +1196,7 @@ Proof.
 Qed.
 
 
-(* ---- quoted strings: the grammar on code points (specification only; the
-   correspondence theorem is a stated goal, see Props/C14.v) ---- *)
+(* ---- quoted strings: the grammar on code points ---- *)
 Definition hex4 (cps : list N) : option (N * list N) :=
   match cps with
   | a :: b :: c :: d :: r =>
@@ -1211,6 +1210,36 @@ Definition hex4 (cps : list N) : option (N * list N) :=
 Definition cons_fst (ch : N) (o : option (list N * list N)) : option (list N * list N) :=
   match o with Some (s, t) => Some (ch :: s, t) | None => None end.
 
+Definition escape_spec (r : list N) : option (N * list N) :=
+  match r with
+  | [] => None
+  | e :: r1 =>
+      match assoc_byte e escape_table with
+      | Some ch => Some (ch, r1)
+      | None =>
+          if e =? 117 then
+            match hex4 r1 with
+            | None => None
+            | Some (cu1, r2) =>
+                if is_surrogate cu1 then
+                  match r2 with
+                  | 92 :: 117 :: r3 =>
+                      match hex4 r3 with
+                      | Some (cu2, r4) =>
+                          match decode_utf16_pair cu1 cu2 with
+                          | Some ch => Some (ch, r4)
+                          | None => None
+                          end
+                      | None => None
+                      end
+                  | _ => None
+                  end
+                else Some (cu1, r2)
+            end
+          else None
+      end
+  end.
+
 Fixpoint quoted_spec (fuel : nat) (delim : N) (cps : list N) : option (list N * list N) :=
   match fuel with
   | O => None
@@ -1220,34 +1249,169 @@ Fixpoint quoted_spec (fuel : nat) (delim : N) (cps : list N) : option (list N * 
       | c :: r =>
           if c =? delim then Some ([], r)
           else if c =? 92 then
-            match r with
-            | [] => None
-            | e :: r1 =>
-                match assoc_byte e escape_table with
-                | Some ch => cons_fst ch (quoted_spec f delim r1)
-                | None =>
-                    if e =? 117 then
-                      match hex4 r1 with
-                      | None => None
-                      | Some (cu1, r2) =>
-                          if is_surrogate cu1 then
-                            match r2 with
-                            | 92 :: 117 :: r3 =>
-                                match hex4 r3 with
-                                | Some (cu2, r4) =>
-                                    match decode_utf16_pair cu1 cu2 with
-                                    | Some ch => cons_fst ch (quoted_spec f delim r4)
-                                    | None => None
-                                    end
-                                | None => None
-                                end
-                            | _ => None
-                            end
-                          else cons_fst cu1 (quoted_spec f delim r2)
-                      end
-                    else None
-                end
+            match escape_spec r with
+            | Some (ch, r') => cons_fst ch (quoted_spec f delim r')
+            | None => None
             end
           else cons_fst c (quoted_spec f delim r)
       end
   end.
+
+Lemma hex_digit_facts x d : hex_from_digit x = Some d -> x < 128 /\ d < 16.
+Proof.
+  unfold hex_from_digit.
+  destruct (in_range 48 57 x) eqn:A; [apply in_range_iff in A; intros H; inversion H; lia|].
+  destruct (in_range 97 102 x) eqn:B; [apply in_range_iff in B; intros H; inversion H; lia|].
+  destruct (in_range 65 70 x) eqn:C; [apply in_range_iff in C; intros H; inversion H; lia|discriminate].
+Qed.
+
+Lemma lor4 x y : y < 16 -> N.lor (N.shiftl x 4) y = x * 16 + y.
+Proof. intros H. rewrite (lor_shiftl_add x y 4) by exact H. reflexivity. Qed.
+
+Lemma lor_hex4 a b c d : b < 16 -> c < 16 -> d < 16 ->
+  N.lor (N.lor (N.lor (N.shiftl a 12) (N.shiftl b 8)) (N.shiftl c 4)) d = ((a * 16 + b) * 16 + c) * 16 + d.
+Proof.
+  intros Hb Hc Hd.
+  replace (N.shiftl a 12) with (N.shiftl (N.shiftl (N.shiftl a 4) 4) 4) by (rewrite !N.shiftl_shiftl; reflexivity).
+  replace (N.shiftl b 8) with (N.shiftl (N.shiftl b 4) 4) by (rewrite N.shiftl_shiftl; reflexivity).
+  rewrite <- !N.shiftl_lor. rewrite (lor4 a b Hb), (lor4 _ c Hc). apply lor4, Hd.
+Qed.
+
+Lemma eat_map_byte_inv {R} (f : N -> option R) c x c' :
+  eat_map_byte f c = Some (x, c') -> exists b, f b = Some x /\ rest c = b :: rest c'.
+Proof.
+  intros H. apply eat_map_byte_ext in H as [b [Hf [E _]]]. exists b. split; [exact Hf|exact E].
+Qed.
+
+Lemma bytes_ok_tail b r : bytes_ok (b :: r) -> bytes_ok r.
+Proof. intros H. inversion H; assumption. Qed.
+
+Lemma eat_codeunit_value c cu c' : bytes_ok (rest c) -> eat_codeunit c = (Some cu, c') ->
+  bytes_ok (rest c') /\ hex4 (lossy (rest c)) = Some (cu, lossy (rest c')).
+Proof.
+  intros B H. unfold eat_codeunit in H.
+  destruct (eat_map_byte hex_from_digit c) as [[d0 c1]|] eqn:M0; [|discriminate].
+  destruct (eat_map_byte hex_from_digit c1) as [[d1 c2]|] eqn:M1; [|discriminate].
+  destruct (eat_map_byte hex_from_digit c2) as [[d2 c3]|] eqn:M2; [|discriminate].
+  destruct (eat_map_byte hex_from_digit c3) as [[d3 c4]|] eqn:M3; [|discriminate].
+  inversion H; subst. clear H.
+  apply eat_map_byte_inv in M0 as [x0 [H0 R0]]. apply eat_map_byte_inv in M1 as [x1 [H1 R1]].
+  apply eat_map_byte_inv in M2 as [x2 [H2 R2]]. apply eat_map_byte_inv in M3 as [x3 [H3 R3]].
+  rewrite R0 in B. pose proof (bytes_ok_tail _ _ B) as B1. rewrite R1 in B1.
+  pose proof (bytes_ok_tail _ _ B1) as B2. rewrite R2 in B2.
+  pose proof (bytes_ok_tail _ _ B2) as B3. rewrite R3 in B3. pose proof (bytes_ok_tail _ _ B3) as B4.
+  split; [exact B4|].
+  destruct (hex_digit_facts _ _ H0) as [A0 D0]. destruct (hex_digit_facts _ _ H1) as [A1 D1].
+  destruct (hex_digit_facts _ _ H2) as [A2 D2]. destruct (hex_digit_facts _ _ H3) as [A3 D3].
+  rewrite R0, R1, R2, R3.
+  rewrite (lossy_ascii x0) by (try exact A0; repeat (constructor; try lia); exact B4).
+  rewrite (lossy_ascii x1) by (try exact A1; repeat (constructor; try lia); exact B4).
+  rewrite (lossy_ascii x2) by (try exact A2; repeat (constructor; try lia); exact B4).
+  rewrite (lossy_ascii x3) by (try exact A3; exact B4).
+  unfold hex4. rewrite H0, H1, H2, H3. rewrite lor_hex4 by assumption. reflexivity.
+Qed.
+
+Lemma escape_key_ascii b ch : assoc_byte b escape_table = Some ch -> b < 128.
+Proof.
+  unfold escape_table. cbn [assoc_byte].
+  repeat match goal with |- context[if b =? ?k then _ else _] => destruct (N.eqb_spec b k); [intros _; lia|] end.
+  discriminate.
+Qed.
+
+Lemma lossy_len_cons x t bs : lossy bs = x :: t -> (length t < length (lossy bs))%nat.
+Proof. intros ->. cbn. lia. Qed.
+
+Lemma escape_value len start c1 ch c2 : bytes_ok (rest c1) ->
+  lex_escape len start c1 = Ok (ch, c2) ->
+  escape_spec (lossy (rest c1)) = Some (ch, lossy (rest c2)) /\ bytes_ok (rest c2) /\
+  (length (lossy (rest c2)) < length (lossy (rest c1)))%nat.
+Proof.
+  intros B H. unfold lex_escape in H.
+  destruct (usub (pos c1) 1) as [es| | |]; try discriminate. cbn [obind] in H.
+  destruct (eat_map_byte (fun b => assoc_byte b escape_table) c1) as [[ch' c2']|] eqn:M.
+  { inversion H; subst. apply eat_map_byte_inv in M as [b [Hb R]].
+    rewrite R in B. pose proof (bytes_ok_tail _ _ B) as B2.
+    rewrite R, (lossy_ascii b _ (escape_key_ascii _ _ Hb) B2). cbn [escape_spec]. rewrite Hb.
+    split; [reflexivity|]. split; [exact B2|cbn; lia]. }
+  destruct (eat_byte 117 c1) as [cu|] eqn:U.
+  2:{ destruct (eat_any_char c1) as [[[c2' oc]|]| | |]; cbn [obind] in H; try discriminate;
+      unfold fail in H; destruct (make_span _ _ _); discriminate. }
+  pose proof (eat_byte_inv _ _ _ U) as RU. rewrite RU in B. pose proof (bytes_ok_tail _ _ B) as BU.
+  rewrite RU, (lossy_ascii 117 _ ltac:(lia) BU). cbn [escape_spec]. change (assoc_byte 117 escape_table) with (@None N).
+  rewrite N.eqb_refl.
+  destruct (eat_codeunit cu) as [[cu1|] c3] eqn:C1.
+  2:{ unfold fail in H. destruct (make_span _ _ _); discriminate. }
+  destruct (eat_codeunit_value _ _ _ BU C1) as [B3 HX]. rewrite HX.
+  assert (L3 : (length (lossy (rest c3)) + 4 <= length (lossy (rest cu)))%nat).
+  { unfold hex4 in HX. destruct (lossy (rest cu)) as [|a [|b [|c [|d r]]]]; try discriminate.
+    destruct (hex_from_digit a), (hex_from_digit b), (hex_from_digit c), (hex_from_digit d); try discriminate.
+    inversion HX. cbn. lia. }
+  destruct (is_surrogate cu1) eqn:SG.
+  - destruct (eat_slice [92; 117] c3) as [c4|] eqn:SL.
+    + apply eat_slice_ext in SL. destruct SL as [R4 _]. cbn [app] in R4.
+      rewrite R4 in B3. pose proof (bytes_ok_tail _ _ (bytes_ok_tail _ _ B3)) as B4.
+      rewrite R4. rewrite (lossy_ascii 92) by (try lia; apply (bytes_ok_tail _ _ B3)).
+      rewrite (lossy_ascii 117 _ ltac:(lia) B4).
+      destruct (eat_codeunit c4) as [[cu2|] c5] eqn:C2.
+      2:{ unfold fail in H. destruct (make_span _ _ _); discriminate. }
+      destruct (eat_codeunit_value _ _ _ B4 C2) as [B5 HY]. rewrite HY.
+      assert (L5 : (length (lossy (rest c5)) + 4 <= length (lossy (rest c4)))%nat).
+      { unfold hex4 in HY. destruct (lossy (rest c4)) as [|a [|b [|c [|d r]]]]; try discriminate.
+        destruct (hex_from_digit a), (hex_from_digit b), (hex_from_digit c), (hex_from_digit d); try discriminate.
+        inversion HY. cbn. lia. }
+      destruct (decode_utf16_pair cu1 cu2) as [chp|].
+      * inversion H; subst. split; [reflexivity|]. split; [exact B5|].
+        rewrite R4 in L3. rewrite (lossy_ascii 92) in L3 by (try lia; apply (bytes_ok_tail _ _ B3)).
+        rewrite (lossy_ascii 117 _ ltac:(lia) B4) in L3. cbn [length] in *. lia.
+      * unfold fail in H. destruct (make_span _ _ _); discriminate.
+    + destruct (is_scalar cu1) eqn:SC.
+      * exfalso. apply is_scalar_iff in SC. unfold is_surrogate in SG. apply in_range_iff in SG.
+        assert (cu1 < 65536).
+        { unfold hex4 in HX. destruct (lossy (rest cu)) as [|a [|b [|c [|d r]]]]; try discriminate.
+          destruct (hex_from_digit a) as [x|] eqn:Ea, (hex_from_digit b) as [y|] eqn:Eb,
+                   (hex_from_digit c) as [z|] eqn:Ec, (hex_from_digit d) as [w|] eqn:Ed; try discriminate.
+          apply hex_digit_facts in Ea, Eb, Ec, Ed. inversion HX. lia. }
+        lia.
+      * unfold fail in H. destruct (make_span _ _ _); discriminate.
+  - destruct (is_scalar cu1).
+    + inversion H; subst. split; [reflexivity|]. split; [exact B3|cbn [length]; lia].
+    + unfold fail in H. destruct (make_span _ _ _); discriminate.
+Qed.
+
+Theorem quoted_string_value len start delim : delim < 128 -> delim <> 92 -> forall fuel c s c' fs,
+  bytes_ok (rest c) -> quoted_loop len fuel start delim c = Ok (s, c') ->
+  (length (lossy (rest c)) < fs)%nat ->
+  quoted_spec fs delim (lossy (rest c)) = Some (s, lossy (rest c')) /\ bytes_ok (rest c').
+Proof.
+  intros Hd Hq. induction fuel as [|f IH]; intros c s c' fs B H FS; [discriminate|].
+  destruct fs as [|fs]; [lia|]. cbn [quoted_loop] in H.
+  destruct (eat_byte delim c) as [c1|] eqn:D1.
+  - inversion H; subst. pose proof (eat_byte_inv _ _ _ D1) as R1. rewrite R1 in B.
+    pose proof (bytes_ok_tail _ _ B) as B1. rewrite R1, (lossy_ascii delim _ Hd B1).
+    cbn [quoted_spec]. rewrite N.eqb_refl. split; [reflexivity|exact B1].
+  - destruct (eat_byte 92 c) as [c1|] eqn:BS.
+    + pose proof (eat_byte_inv _ _ _ BS) as R1. rewrite R1 in B. pose proof (bytes_ok_tail _ _ B) as B1.
+      destruct (lex_escape len start c1) as [[ch c2]| | |] eqn:LE; try discriminate. cbn [obind] in H.
+      destruct (escape_value _ _ _ _ _ B1 LE) as [ES [B2 L2]].
+      destruct (quoted_loop len f start delim c2) as [[s2 c3]| | |] eqn:LP; try discriminate.
+      cbn [obind] in H. inversion H; subst.
+      rewrite R1, (lossy_ascii 92 _ ltac:(lia) B1) in FS |- *. cbn [length] in FS.
+      destruct (IH _ _ _ fs B2 LP ltac:(lia)) as [E B3]. split; [|exact B3].
+      cbn [quoted_spec]. destruct (N.eqb_spec 92 delim); [congruence|]. rewrite N.eqb_refl, ES, E. reflexivity.
+    + destruct (eat_any_char c) as [[[c1 oc]|]| | |] eqn:EA; try discriminate; cbn [obind] in H.
+      2:{ unfold fail in H. destruct (make_span len start (pos c)); discriminate. }
+      destruct (eat_any_char_inv _ _ _ B EA) as [b0 [r [R [L [B1 [A NA]]]]]].
+      destruct (quoted_loop len f start delim c1) as [[s2 c3]| | |] eqn:LP; try discriminate.
+      cbn [obind] in H. inversion H; subst.
+      rewrite L in FS |- *. cbn [length] in FS.
+      destruct (IH _ _ _ fs B1 LP ltac:(lia)) as [E B3]. split; [|exact B3].
+      cbn [quoted_spec]. rewrite E.
+      assert (Hne : or_replacement oc <> delim /\ or_replacement oc <> 92).
+      { destruct (eat_byte_none _ _ D1) as [R0|[x [r' [R' Hx]]]]; [rewrite R0 in R; discriminate|].
+        destruct (eat_byte_none _ _ BS) as [R0|[x2 [r2 [R2 Hx2]]]]; [rewrite R0 in R; discriminate|].
+        rewrite R in R', R2. inversion R'; inversion R2; subst.
+        destruct (N.lt_ge_cases x2 128) as [Lt|Ge]; [rewrite (A Lt); split; assumption|specialize (NA Ge); lia]. }
+      destruct Hne as [N1 N2].
+      destruct (N.eqb_spec (or_replacement oc) delim); [congruence|].
+      destruct (N.eqb_spec (or_replacement oc) 92); [congruence|reflexivity].
+Qed.
